@@ -13,7 +13,7 @@ open Lopdf Lopdf.Codec Lopdf.CMap
                  a <dst> is the hex of big-endian UTF-16 units.
   cmap_get    <sections> q <code>*      -> ok (-|u<hex>|panic@<site>)*        | err
   cmap_runs   <sections>                -> ok <len>:<lo>-<hi>=<target>,… ×4   | err
-  cmap_decode <sections> q <bytes>      -> ok <scalar hex>* | panic@<site> | utf8-bom | err
+  cmap_decode <sections> q <bytes>      -> ok <scalar hex>* | panic@<site> | err
   cmap_render <sections>                -> ok <hex of the canonical writer's text (Spec/CMapRender.lean)>
   cmap_text_get / cmap_text_decode: the same with `<hex of the CMap stream text>` instead of <sections>
                  (the model parses the text with its own grammar model; `err` = parse error)
@@ -105,9 +105,9 @@ def showGet : Outcome (Option (List Nat)) → String
   | .panic s => "panic@" ++ s
 
 def showTarget : Target → String
-  | .hex v => "h" ++ hexUnits v
+  | .hex st v => "h" ++ toString st ++ ":" ++ hexUnits v
   | .cp off => "c" ++ toString off
-  | .arr vs => "a" ++ String.intercalate "/" (vs.map hexUnits)
+  | .arr st vs => "a" ++ toString st ++ ":" ++ String.intercalate "/" (vs.map hexUnits)
 
 def showRuns (m : UMap) : String :=
   String.intercalate " " ([1, 2, 3, 4].map fun len =>
@@ -116,10 +116,7 @@ def showRuns (m : UMap) : String :=
 
 def showDecode (m : UMap) (bytes : Bytes) : String :=
   match bytesToUnits m (bytes.map (·.toNat)) with
-  | .ok us =>
-    match decodeUnits us with
-    | .scalars cs => "ok" ++ String.join (cs.map fun c => " " ++ hexNat c)
-    | .utf8Sniffed => "utf8-bom"
+  | .ok us => "ok" ++ String.join ((decodeUnits us).map fun c => " " ++ hexNat c)
   | .err e => "err:" ++ e
   | .panic s => "panic@" ++ s
 
